@@ -52,6 +52,10 @@ EnvOK(fw, p, r) == (r.ctx = <<>> \/ AnyEnv(fw, p, r.ctx)) /\ ~AnyEnv(fw, p, r.ex
 
 (* the output applied to the matched segment *)
 Rewrite(s, o) == IF o.k = "ipa" THEN ApplyFeatsOnly(Base[o.id], o.fm) ELSE ApplyFeatsOnly(s, o.fm)
+(* an output SET answers an input set of the same size (manual, "Sets": `{p, t, k} > {b, d, g}`): the segment is rewritten by the member *)
+(* that stands where the first input member matching it stands                                                                         *)
+FirstMember(e, s) == LET S == { i \in 1..Len(e.items) : ElemMatch(e.items[i], s) } IN CHOOSE i \in S : \A j \in S : i <= j
+RewriteBy(e, s, o) == IF o.k = "set" THEN Rewrite(s, o.items[FirstMember(e, s)]) ELSE Rewrite(s, o)
 
 InputAt(fw, r, p) == ElemMatch(r.inp[1], fw.segs[p])
 \* least position >= cur whose segment matches the input, 0 if none
@@ -67,7 +71,7 @@ ScanFrom(fw, r, cur, steps, ok) ==
   LET p == NextMatch(fw, r, cur) IN
   IF p = 0 THEN [segs |-> fw.segs, steps |-> steps, ok |-> ok]
   ELSE IF EnvOK(fw, p, r)
-       THEN LET fw2 == [fw EXCEPT !.segs[p] = Rewrite(fw.segs[p], r.out[1])] IN
+       THEN LET fw2 == [fw EXCEPT !.segs[p] = RewriteBy(r.inp[1], fw.segs[p], r.out[1])] IN
             ScanFrom(fw2, r, p + 1, Append(steps, <<p, TRUE>>), ok /\ NoAdjEqF(fw2))
        ELSE ScanFrom(fw, r, p + 1, Append(steps, <<p, FALSE>>), ok)
 RunScanF(w, r) == ScanFrom(Flat(w), r, 1, <<>>, NoAdjEqF(Flat(w)))
